@@ -252,7 +252,9 @@ def gen_existing(rng, i):
         style = "json"
     text = yaml.safe_dump(doc, sort_keys=False, default_flow_style=(style == "flow")) if doc else "{}\n"
     if style == "json":
-        text = json.dumps(doc, indent=2) + "\n"
+        # JSON as JSON tools write it: tab indentation, a float in exponent form without a dot (1e+16) - both outside YAML's reading of the same text
+        doc.setdefault("my_custom_key", {"note": "kept"})["big"] = 1e16
+        text = json.dumps(doc, indent=("\t" if i % 4 < 2 else 2)) + "\n"
     if style == "comments":
         text = "# my project configuration\n# GLOBAL SETTINGS are below (not really)\n" + text.replace("\n", "  # user note\n", 1) + "# trailing comment\n"
     elif style == "banner-lookalike":
